@@ -314,7 +314,8 @@ int step(Model &m)
   // SR as the destination of an instruction that also sets the status bits: which of the two writes
   // survives is not stated in the guides (MOV, BIC, BIS to SR do not touch the flags and are defined)
   if (Ad == 0 && dreg == 2 && o != 4 && o != 12 && o != 13 && o != 9 && o != 11) { m.why = "flag-setting instruction with SR as destination"; return ST_EXCLUDED; }
-  if (As == 3 && sreg == dreg && sreg != 0 && !is_const_src(sreg, As)) { m.why = "auto-incremented source register is also the destination"; return ST_EXCLUDED; }
+  // @Rn+ with the same register as destination (register or index) is defined: 3.3.6 "Rn is incremented
+  // afterwards" - after the source operand fetch, i.e. before the destination is evaluated.
   if (As >= 2 && sreg == 0 && As == 2) { m.why = "@PC as source"; return ST_EXCLUDED; }
   uint16_t mask = bw ? 0xff : 0xffff, sign = bw ? 0x80 : 0x8000;
   Operand s;
